@@ -96,7 +96,7 @@ theorem litStep_decodes {H : Type} (R : H → Spec.Huffman.Table → Prop) (cd :
     · cases h
     · rename_i lb t hc
       simp only [Except.ok.injEq, Prod.mk.injEq] at h
-      obtain ⟨d', hdec, htr'⟩ := hcd _ _ _ _ e.huf rest htr hc
+      obtain ⟨d', hdec, htr'⟩ := hcd _ _ _ _ e.huf rest hlen htr hc
       refine ⟨d', by rw [← h.1]; exact hdec, ?_⟩
       rw [← h.2]
       intro t' ht'
@@ -104,7 +104,7 @@ theorem litStep_decodes {H : Type} (R : H → Spec.Huffman.Table → Prop) (cd :
       exact htr' t' (by rw [← ht']; rfl)
     · rename_i lb hc
       simp only [Except.ok.injEq, Prod.mk.injEq] at h
-      obtain ⟨d', hdec, htr'⟩ := hcd _ _ _ _ e.huf rest htr hc
+      obtain ⟨d', hdec, htr'⟩ := hcd _ _ _ _ e.huf rest hlen htr hc
       refine ⟨d', by rw [← h.1]; exact hdec, ?_⟩
       rw [← h.2]
       intro t' ht'
